@@ -378,7 +378,8 @@ Definition check_conv (args : list sx) : verdict :=
           mkV true (nomodel || (agree && mon_ok)) model (dedup (conv_oracle_x nomodel cfg be obs expect ++ syn_viol))
               (syn_kf ++ (if f6 then [bs "F6"] else []))
               ((match assoc "expect" args with Some e => [bs "focus-" ++ focus_of e] | None => [] end) ++ conv_tags cfg evs ++ (if trace_nondet cfg evs then [bs "nondet-param-order"] else [])
-               ++ (if mon_ok then [] else [bs "MODEL-TRACE-REJECTED-BY-MONITOR"]))
+               ++ (if mon_ok then [] else [bs "MODEL-TRACE-REJECTED-BY-MONITOR"])
+               ++ (match assoc "srvclose-at" expect with Some _ => [bs "server-close-in-callback"] | None => [] end))
       | _, _, _ => bad_case
       end
   | _, _, _, _ => bad_case
